@@ -63,9 +63,11 @@ def label_tol(fc, bw, nchan):
 
 
 def same_time(a, b, tol):
+    """Equal start times, up to the resolution of astropy's two-double Time (a start time that went through ``t + 0 s`` on a UTC day
+    with a leap second comes back with another jd1/jd2 split, a few ps away)."""
     if a is None or b is None:
         return a is None and b is None
-    return abs(exact.time_diff_s(a, b)) <= tol
+    return abs(exact.time_diff_s(a, b)) <= max(tol, exact.TIME_TOL_S)
 
 
 # ------------------------------------------------------------------------------------------------
